@@ -301,6 +301,38 @@ fn emit_const_value<'tcx>(tcx: TyCtxt<'tcx>, j: &mut J, val: ConstValue, ty: Ty<
             } else if ty.is_integral() {
                 let v: i128 = if ty.is_signed() { si.to_int(si.size()) } else { si.to_uint(si.size()) as i128 };
                 j.num("v", v);
+            } else if let ty::Adt(adt, _) = ty.kind() {
+                // fieldless enum constant: report the variant
+                if adt.is_enum() && adt.variants().iter().all(|v| v.fields.is_empty()) {
+                    let bits = si.to_uint(si.size());
+                    for (vidx, v) in adt.variants().iter_enumerated() {
+                        if adt.discriminant_for_variant(tcx, vidx).val == bits {
+                            j.str("variant", v.name.as_str());
+                            j.str("adt", &path(tcx, adt.did()));
+                        }
+                    }
+                }
+            }
+        }
+        ConstValue::Scalar(mir::interpret::Scalar::Ptr(ptr, _)) => {
+            // `&[u8; N]` (packed format_args! templates, byte-string literals): dump the bytes
+            if let ty::Ref(_, inner, _) = ty.kind() {
+                if let ty::Array(elem, len) = inner.kind() {
+                    if *elem == tcx.types.u8 {
+                        if let Some(n) = len.try_to_target_usize(tcx) {
+                            let (prov, offset) = ptr.prov_and_relative_offset();
+                            if let mir::interpret::GlobalAlloc::Memory(alloc) = tcx.global_alloc(prov.alloc_id()) {
+                                let start = offset.bytes() as usize;
+                                let end = start + n as usize;
+                                let a = alloc.inner();
+                                if end <= a.len() {
+                                    let bytes = a.inspect_with_uninit_and_ptr_outside_interpreter(start..end);
+                                    j.str("bytes", &bytes.iter().map(|b| *b as char).collect::<String>());
+                                }
+                            }
+                        }
+                    }
+                }
             }
         }
         ConstValue::Slice { .. } => {
